@@ -396,6 +396,58 @@ def part_no_args(res: Result) -> None:
                     observed={"executions": o["seen"], "worker_finished": o["finished"]}, expected=want)
 
 
+ANNOTATED_SRC = """
+async def ann(a: int = None, b: str = None, c: list = (), d: int = 5, *, e: float = 1, f: dict = None, g: typing.Optional[int] = None):
+    CALLS.append(dict(a=a, b=b, c=c, d=d, e=e, f=f, g=g))
+"""
+
+
+async def annotated_defaults() -> list:
+    """annotated parameters whose declared default is not an instance of the annotation (`x: int = None`, `c: list = ()`): a
+    parameter missing from the payload receives the DECLARED default — the very object — under every converter"""
+    env = {"CALLS": CALLS, "typing": typing}
+    exec(ANNOTATED_SRC, env)  # noqa: S102
+    conn = Connection(InMemoryMessageBroker())
+    proc = _Processor(conn)
+    out = []
+    for conv in ("basic", "pydantic", "default"):
+        router = Router()
+        if conv == "default":
+            saved = Config.CONVERTER
+            Config.CONVERTER = DefaultConverter
+            try:
+                from repid.router import RouterDefaults
+                router = Router(defaults=RouterDefaults())
+                router.actor(env["ann"], name="ann")
+            finally:
+                Config.CONVERTER = saved
+        else:
+            router.actor(env["ann"], name="ann", converter={"basic": BasicConverter, "pydantic": PydanticConverter}[conv])
+        actor = router.actors["ann"]
+        for payload in (None, {}, {"d": 7}, {"a": 3, "g": 4}):
+            del CALLS[:]
+            text = "" if payload is None else json.dumps(payload)
+            r = await proc.actor_run(actor, RoutingKey(topic="ann", id_="m1"), Parameters(), text, conn)
+            out.append({"converter": conv, "payload": payload, "success": r.success,
+                        "exception": None if r.exception is None else f"{type(r.exception).__name__}: {str(r.exception)[:200]}",
+                        "received": [{k: repr(v) for k, v in c.items()} for c in CALLS]})
+    return out
+
+
+def part_annotated(res: Result) -> None:
+    rows = vtime.run(lambda loop: annotated_defaults(), budget=5_000_000)
+    declared = {"a": None, "b": None, "c": (), "d": 5, "e": 1, "f": None, "g": None}
+    for r in rows:
+        res.dist["annotated-defaults:" + r["converter"]] += 1
+        res.note(("annotated", r["converter"], json.dumps(r["payload"])))
+        want = {k: repr((r["payload"] or {}).get(k, v)) for k, v in declared.items()}
+        if not r["success"] or r["received"] != [want]:
+            res.bad("impl", "a parameter missing from the payload did not receive its declared default (annotated parameter whose "
+                            "default is not an instance of the annotation)", case={"signature": ANNOTATED_SRC.strip().split("\n")[0],
+                                                                                      "converter": r["converter"], "payload": r["payload"]},
+                    observed={"received": r["received"], "exception": r["exception"]}, expected=want)
+
+
 def part_outputs(rng: Rng, res: Result) -> None:
     """the encoded return value decodes to the value the actor returned"""
     async def f1():
@@ -440,6 +492,7 @@ def run(ctx) -> Result:
     part_pycall(rng, model, res, 6000 if deep else 1200)
     part_outputs(rng, res)
     part_no_args(res)
+    part_annotated(res)
     return res
 
 
